@@ -483,7 +483,7 @@ def agree(c, got, exp):
 
 def agree_model(c, got, m):
     """exact per-step equality of both traces with the Lean lazy / eager machines, except at the steps whose divergence is a
-    recorded finding outside the modelled code (t[i] TypeError from npstructures; eager VCF write; eager header context)"""
+    recorded finding outside the modelled code (t[i] TypeError from npstructures; eager header context)"""
     if not isinstance(got, dict) or "lazy" not in got:
         return False
     hdr = _header(c)
@@ -496,8 +496,6 @@ def agree_model(c, got, m):
             if o["k"] == "row" and a == "err":
                 continue
             if o["k"] == "write" and mode == "eager":
-                if a == "err" and c["fmt"] == "vcf":
-                    continue
                 if isinstance(a, dict) and isinstance(b, dict) and hdr and _body(c, b["bytes"]) == _body(c, a["bytes"]):
                     continue
             return False
